@@ -634,6 +634,26 @@ pub fn cases(o: &mut Outcome, rng: &mut Rng, thorough: bool) {
     e2e_cond(o, rng, thorough);
 }
 
+/// C16: the arithmetic against the model (a panic of the code must be the model's `panic`) and the
+/// narrow-page / deep-nesting programs.
+pub fn cases_c16(o: &mut Outcome, rng: &mut Rng, thorough: bool) {
+    arithmetic(o, rng, thorough);
+    assign_rhs(o, rng, thorough);
+    cond(o, rng, thorough);
+    e2e_cond(o, rng, thorough);
+}
+
+/// C09: layouts at exact widths (signatures and control-flow headers) as the model predicts them.
+pub fn cases_c09(o: &mut Outcome, rng: &mut Rng, thorough: bool) {
+    e2e_sigs(o, rng, thorough);
+    e2e_cond(o, rng, thorough);
+}
+
+/// C02: fmt(fmt(x)) = fmt(x) on signatures at exact widths, and the same output from another source layout.
+pub fn cases_c02(o: &mut Outcome, rng: &mut Rng, thorough: bool) {
+    e2e_sigs(o, rng, thorough);
+}
+
 pub fn run(tier: &str, seed: u64, out: &std::path::Path) -> i32 {
     let thorough = tier == "thorough";
     let mut o = Outcome::new("BUDGETS", tier, seed);
